@@ -66,6 +66,17 @@ def _post_create_range_dim(name, start, stop, step, size, dtype, result):
         dev = np.abs(coords - ideal).max() / float(st)
         if dev > RANGE_STEP_TOL:
             c.violate("range:lattice", "range:lattice", observed={"max_dev_in_steps": float(dev)}, expected=f"<= {RANGE_STEP_TOL}", spec=spec)
+        else:
+            # a principled, much tighter bound: an implementation that derives its increment from (start + step) - start
+            # (numpy.arange) is off by at most one ulp at the magnitude of the range per element index; one that
+            # multiplies directly is off by a couple of ulps.  Anything beyond (i + 6) ulps is not rounding.
+            ulp = float(np.spacing(max(abs(float(start)), abs(float(stop)), abs(float(start) + float(st)))))
+            tol = np.minimum((np.arange(n) + 6) * ulp, RANGE_STEP_TOL * float(st))
+            bad = np.abs(coords - ideal) > tol
+            if bad.any():
+                i = int(np.argmax(bad))
+                c.violate("range:lattice", "range:lattice:beyond_rounding", observed={"i": i, "coord": float(coords[i]), "dev_in_ulps": float(abs(coords[i] - ideal[i]) / ulp)},
+                          expected={"start+i*step": float(ideal[i]), "allowed_ulps": i + 6}, spec=spec)
         if n > 1 and not np.all(np.diff(coords) > 0):
             c.violate("range:increasing", "range:increasing", observed="non-increasing", spec=spec)
     return True
